@@ -264,6 +264,52 @@ def break_syllabic_search(ctx, shim, r, nfonts, per_font, pc, pt):
                        groups=groups, make=lambda r, g, fl, k: SY.make_shaping(r, g, fl), classify=SY.known_class)
 
 
+def break_hangul_search(ctx, shim, r, nfonts, per_font, pc, pt):
+    """`break-safety-hangul` (added after the seeded change C03g): tools/hangulflags.py"""
+    import hangulflags as HF
+    groups = HF.hangul_groups(r, nfonts)
+    ctx.cov["break_hangul_fonts"] = {
+        "fonts": len(groups), "with_gsub_jamo_features": sum(1 for g in groups if g["facts"]["gsub_jamo_features"]),
+        "some_LV_but_not_every_LVT": sum(1 for g in groups if any(c in g["recipe"]["cmap"] for c in g["hangul"]["LV"])
+                                         and not all(c in g["recipe"]["cmap"] for c in g["hangul"]["LVT"])),
+        "tone_marks_of_different_width_class": sum(1 for g in groups if len(g["facts"]["zero_width_tones"]) == 1
+                                                   and all(t in g["recipe"]["cmap"] for t in HF.TONES))}
+    metamorphic_search(ctx, shim, r, per_font, pc, pt, False, "break-safety-hangul", F.verify_break, [0, 0, pc, pc | pt],
+                       "breaking at unflagged cluster starts changes the result",
+                       HF.RULE + "then as break-safety-ot: cut at ALL unflagged cluster starts, re-shape the pieces, concatenate, compare",
+                       groups=groups, make=lambda r, g, fl, k: HF.make_hangul_shaping(r, g, fl), classify=HF.hangul_known_class)
+
+
+def promote_hangul_pre_flags(ctx, shim, dis, limit):
+    """the disagreeing hangul-pre-flags requests themselves as shape() inputs of the break-safety verifier"""
+    import hangulflags as HF
+    if not dis:
+        ctx.note_search("promoted-hangul-pre-flags", 0, 0, rule="no hangul-pre-flags disagreement to promote in this run")
+        return
+    sh = HF.promoted_shapings(dis, limit)
+    res = F.verify_break(shim, sh)
+    stat, bad = {}, []
+    for s, o in zip(sh, res):
+        stat[o["status"]] = stat.get(o["status"], 0) + 1
+        if o["status"] == "DIFF":
+            bad.append((len(s.text), s, o))
+    bad.sort(key=lambda x: x[0])
+    for _, s, o in bad[:3]:
+        rp = s.describe()
+        d = s.g["from_correspondence"]
+        rp.update({"stage": "search", "stream": "break-promoted-hangul-pre-flags", "pieces_text_ranges": o.get("pieces"),
+                   "piece_requests": o.get("piece_requests"), "whole": F.fmt_glyphs(o.get("whole") or []),
+                   "pieces_reassembled": F.fmt_glyphs(o.get("recon") or []), "difference": o.get("diff"),
+                   "from_correspondence": d["request"], "impl": d["impl"], "model": d["model"]})
+        ctx.violation(f"breaking at unflagged cluster starts changes the result (promoted hangul-pre-flags disagreement): "
+                      f"{o.get('diff')} — font {s.g['reg'].split()[3]} text {' '.join(rp['text'])} clusters {s.clusters} "
+                      f"level={s.level}; {len(bad)} of {len(sh)} promoted requests differ", rp)
+    ctx.note_search("promoted-hangul-pre-flags", len(sh), stat.get("ok", 0) + stat.get("DIFF", 0), outcome=stat, deviations=len(bad),
+                    rule="every hangul-pre-flags request on which crate and model disagree (shortest first, capped): its text on the "
+                         "font of its support spec through shape() and the break-safety verifier (cut at all unflagged cluster "
+                         "starts, re-shape, compare); nothing is assumed about why the two disagreed")
+
+
 def gsub_flag_groups(ctx, shim, r, nfonts, per_font):
     """request groups of the `gsub` command (the GSUB interpreter of the crate through its hook vs the Lean model Gsub.lean,
     which contains every unsafe_to_break / unsafe_to_concat call site of the interpreter and delete_glyph / merge_clusters of
@@ -391,6 +437,11 @@ def run(ctx):
                    classify=C06mod.gsub_classify, canon=F.canon_panic, only=lambda ln: ln.startswith("gsub "))
     ctx.correspond("stch-prims", groups=F.stch_prim_groups(ctx.rng("stch-prims"), ctx.budget(40, 400), ctx.budget(100, 500)),
                    classify=F.classify_stch, canon=F.canon_panic, only=lambda ln: ln.startswith("stch "))
+    # the Hangul shaper's text pre-processing on the buffer model, masks included (HangulBuf.lean; theorems
+    # C03_hangul_decomposition_flagged, C03_hangul_conjoining_flagged, C03_hangul_tone_flagged)
+    import hangulflags as HF
+    hdis = ctx.correspond("hangul-pre-flags", lines=HF.pre_flag_lines(ctx.rng("hangul-pre-flags"), ctx.budget(6000, 200000)),
+                   classify=HF.classify_pre_flags, canon=lambda x: "panic" if x.startswith("panic") else x)
     import _gposflag as GF
     rg = ctx.rng("gpos-flags")
     ctx.correspond("gpos-value-worked", lines=GF.val_lines(rg, ctx.budget(3000, 100000)), classify=GF.classify_val, canon=GF.canon)
@@ -412,6 +463,8 @@ def run(ctx):
     break_fraction_search(ctx, shim, ctx.rng("break-fraction"), ctx.budget(20, 300), ctx.budget(20, 60), pc, pt)
     break_di_search(ctx, shim, ctx.rng("break-di"), ctx.budget(150, 3000), 16, pc, pt)
     break_syllabic_search(ctx, shim, ctx.rng("break-syllabic"), ctx.budget(240, 4000), 16, pc, pt)
+    promote_hangul_pre_flags(ctx, shim, hdis, ctx.budget(80, 400))
+    break_hangul_search(ctx, shim, ctx.rng("break-hangul"), ctx.budget(150, 3000), 16, pc, pt)
     break_stch_search(ctx, shim, ctx.rng("break-stch"), ctx.budget(100, 2000), 12, pc, pt)
     break_search(ctx, shim, ctx.rng("break-ot"), ctx.budget(60, 1200), pc, pt, False, "break-safety-ot")
     break_search(ctx, shim, ctx.rng("break-aat"), ctx.budget(150, 4000), pc, pt, True, "break-safety-aat")
